@@ -77,7 +77,7 @@ def _coverage():
 
 
 def run_scenario(name: str, seed: int, params: dict, res: Result | None = None, coverage: bool = True) -> Result:
-    from hsverif.c07_probe import C07Probe, driven_classes, is_library_module
+    from hsverif.c07_probe import C07Probe, driven_classes, is_library_module, norm_type
     from hsverif.probe import quiet_library_logging
     from hsverif.scenarios import CATALOGUE
 
@@ -119,6 +119,7 @@ def run_scenario(name: str, seed: int, params: dict, res: Result | None = None, 
     past = probe.attributed_past_emissions()
     res.count("past_emissions_all_emitters", len(probe.c07_past))
     explained_ids = {r["event_id"] for r in probe.c07_past if r.get("event_id") is not None}
+    explained_types = {r["event_type"] for r in probe.c07_past if r.get("event_id") is None}
     by_key: dict[tuple, list] = {}
     for r in past:
         by_key.setdefault((r["component"], r["event_type"]), []).append(r)
@@ -142,13 +143,14 @@ def run_scenario(name: str, seed: int, params: dict, res: Result | None = None, 
     for rec in probe.time_travel:
         msg = rec.get("msg", "")
         eid = msg.rsplit("event_id=", 1)[-1].strip() if "event_id=" in msg else None
-        if eid not in explained_ids:
-            unexplained.append(rec)
+        if eid in explained_ids:
+            continue
+        if eid in (None, "None") and norm_type(rec.get("event_type")) in explained_types:
+            continue  # continuation without a context id: matched by type
+        unexplained.append(rec)
     for rec in unexplained[:3]:
         last = rec.get("last_emitter") or ("?", "", None)
         if is_library_module(last[1] or ""):
-            from hsverif.c07_probe import norm_type
-
             res.add(
                 "time-travel-discard",
                 last[0],
@@ -329,25 +331,38 @@ def run_suite(case: dict) -> Result:
     here = os.path.dirname(os.path.dirname(os.path.dirname(os.path.abspath(__file__))))
     tmpdir = tempfile.mkdtemp(prefix="c07-suite-", dir=os.path.join(here, ".work"))
 
-    def one(i: int):
-        out = os.path.join(tmpdir, f"s{i}.json")
+    def one(i: int, paths=None, tag=None):
+        out = os.path.join(tmpdir, f"s{tag or i}.json")
         env = dict(os.environ)
         env["PYTHONPATH"] = here + os.pathsep + root
         env["HS_REPO"] = root
         env["HSVERIF_C07_OUT"] = out
         env["PYTHONDONTWRITEBYTECODE"] = "1"
         env.setdefault("PYTHONHASHSEED", "0")
-        cmd = [sys.executable, "-m", "pytest", "-p", "hsverif.pytest_plugin", "-q", "-p", "no:cacheprovider", "-x", "--no-header"]
-        cmd += ["-o", "addopts="] + shards[i]
+        cmd = [sys.executable, "-m", "pytest", "-p", "hsverif.pytest_plugin", "-q", "-p", "no:cacheprovider", "--no-header"]
+        cmd += ["-o", "addopts="] + (paths if paths is not None else shards[i])
         p = subprocess.run(cmd, cwd=root, env=env, capture_output=True, text=True, timeout=1500, check=False)
         data = json.load(open(out)) if os.path.exists(out) else None
         return i, p.returncode, p.stdout[-600:], data
 
-    try:
-        with cf.ThreadPoolExecutor(max_workers=n) as ex:
-            results = list(ex.map(one, range(n)))
-    finally:
-        pass
+    with cf.ThreadPoolExecutor(max_workers=n) as ex:
+        results = list(ex.map(one, range(n)))
+    # A test that fails inside a shard may merely depend on the order of the files (the repository has
+    # one such test): re-run the failed ids alone, still under the probes; only a failure that
+    # persists in isolation counts as "failed under the probes".
+    failed_ids = []
+    for _i, _rc, _tail, data in results:
+        if data:
+            failed_ids += [f.rsplit("[", 1)[0] for f in data.get("failed_ids", [])]
+    failed_ids = sorted(set(failed_ids))
+    persistent = []
+    if failed_ids:
+        _i, rc2, _tail2, data2 = one(0, paths=failed_ids[:40], tag="retry")
+        if data2 is not None:
+            persistent = [f.rsplit("[", 1)[0] for f in data2.get("failed_ids", [])]
+            results.append((-1, 0, "", {**data2, "tests": 0, "failed": 0}))
+        else:
+            persistent = failed_ids
     import shutil
 
     for i, rc, tail, data in results:
@@ -356,7 +371,6 @@ def run_suite(case: dict) -> Result:
             res.count("suite_shards_failed")
             continue
         res.count("suite_tests_run", data["tests"])
-        res.count("suite_tests_failed", data["failed"])
         res.count("deliveries_monitored", data["deliveries"])
         res.count("pushes_monitored", data["pushes"])
         res.count("suite_time_travel_records", data["time_travel"])
@@ -364,8 +378,6 @@ def run_suite(case: dict) -> Result:
         res.obs["suite_max_deliveries_at_one_instant"] = max(
             res.obs.get("suite_max_deliveries_at_one_instant", 0), data["max_instant"]
         )
-        if rc not in (0, 5) and data["failed"]:
-            res.sets.setdefault("suite_failures", []).extend(data.get("failed_ids", [])[:5])
         for v in data["violations"]:
             res.add(v["oracle"], v["component"], v["shape"], detail=v["detail"], witness=v["witness"])
         for fam, classes in (data.get("driven") or {}).items():
@@ -378,8 +390,12 @@ def run_suite(case: dict) -> Result:
         uniq.setdefault(v.key(), v)
     res.violations = list(uniq.values())
     res.nontrivial = res.obs.get("suite_tests_run", 0) > 0
-    if res.obs.get("suite_tests_failed", 0) and not res.inconclusive:
-        res.inconclusive = f"{res.obs['suite_tests_failed']} suite test(s) failed under the probes: {res.sets.get('suite_failures')}"
+    res.count("suite_tests_failed_in_shard_order_only", len(set(failed_ids) - set(persistent)))
+    for f in sorted(set(failed_ids) - set(persistent)):
+        res.seen("suite_order_dependent_tests", f)
+    if persistent and not res.inconclusive:
+        res.count("suite_tests_failed", len(persistent))
+        res.inconclusive = f"{len(persistent)} suite test(s) fail under the probes even in isolation: {persistent[:5]}"
     return res
 
 
